@@ -57,6 +57,8 @@ func cmdAux(args []string) {
 		auxIntersect(r, *n, emit, stats)
 	case "cursor":
 		auxCursor(r, *n, emit, stats)
+	case "plan":
+		auxPlan(r, *seed, *n, emit, stats)
 	case "norm":
 		auxNorm(r, *n, emit, stats)
 	case "docpath":
@@ -690,3 +692,89 @@ func auxCursor(r *rand.Rand, n int, emit func(E), stats map[string]int) {
 
 var _ = clover.ErrCollectionExist
 var _ store.Store
+
+// ---------------------------------------------------------------- C02: the planner's range derivation
+
+// auxPlan runs the planner's own (exported) visitors on generated criteria, exactly as
+// getIndexQueries chains them, and records which field was selected and which value range was
+// derived for it.  TLC checks that the range is a superset of the values of every satisfying
+// document of a boundary-rich universe, and that a range reported empty admits none.
+func auxPlan(r *rand.Rand, seed int64, n int, emit func(E), stats map[string]int) {
+	p := &Profile{Name: "plan", NumTable: "general", TimeTable: "general", Colls: 1, MaxDocs: 8, W: weights(nil)}
+	g := NewGen(seed, p)
+	x := &Exec{U: g.U}
+	fieldsPool := []string{"x", "xy", "n.a", "s"}
+	for it := 0; it < n; it++ {
+		// indexed fields
+		var indexed []string
+		for _, f := range fieldsPool {
+			if g.chance(0.5) {
+				indexed = append(indexed, f)
+			}
+		}
+		if len(indexed) == 0 {
+			indexed = []string{"x"}
+		}
+		g.focus = indexed
+		c := g.crit(3)
+		info := map[string]*index.Info{}
+		for _, f := range indexed {
+			info[f] = &index.Info{Field: f, Type: index.SingleField}
+		}
+		var selected []interface{}
+		ranges := make([]interface{}, 0)
+		panicked := 0
+		ok, msg := safely(func() {
+			crit := x.gammaCrit(c)
+			norm := crit.Accept(&clover.CriteriaNormalizeVisitor{})
+			if norm == nil {
+				return
+			}
+			flat := norm.(query.Criteria).Accept(&clover.NotFlattenVisitor{}).(query.Criteria)
+			sel := flat.Accept(&clover.IndexSelectVisitor{Fields: info}).([]*index.Info)
+			for _, s := range sel {
+				selected = append(selected, B(s.Field))
+			}
+			if len(sel) == 0 {
+				return
+			}
+			fr := flat.Accept(clover.NewFieldRangeVisitor([]string{sel[0].Field})).(map[string]*index.Range)
+			for f, rg := range fr {
+				empty := 0
+				if rg.IsEmpty() {
+					empty = 1
+				}
+				ranges = append(ranges, []interface{}{B(f), rangeFromGo(g.U, rg), empty})
+			}
+		})
+		if !ok {
+			panicked = 1
+			stats["plan/panic:"+msg]++
+		}
+		if selected == nil {
+			selected = []interface{}{}
+		}
+		// a universe of documents dense around the literals: every value of the value pool in the
+		// selected field (and absent), other fields random
+		docs := make([]interface{}, 0)
+		vals := scanValues(g.U)
+		for _, v := range vals {
+			d := g.doc(AStr(g.ids[0]))
+			for _, f := range indexed {
+				if f == "n.a" {
+					d = ObjSet(d, "n", AObj("a", v))
+				} else {
+					d = ObjSet(d, f, v)
+				}
+			}
+			docs = append(docs, d)
+		}
+		docs = append(docs, g.doc(AStr(g.ids[0])), AObj("_id", AStr(g.ids[1])))
+		idx := make([]interface{}, 0)
+		for _, f := range indexed {
+			idx = append(idx, B(f))
+		}
+		emit(E{"kind": "plan", "crit": c, "indexed": idx, "selected": selected, "ranges": ranges, "docs": docs, "panicked": panicked})
+		stats[fmt.Sprintf("plan/selected=%d/ranges=%d", len(selected), len(ranges))]++
+	}
+}
